@@ -165,7 +165,12 @@ def run(ctx, rep):
             continue
         found = None
         for cand in [fn_] + sorted(q for q in f.fns if q.startswith(fn_ + "::{closure#")):
-            b = cg.body(cand)
+            if cand == fn_:
+                # the entry point with the writer's own helper methods inlined (a shared `push` helper is looked through)
+                from ..mir import Body as _Body, inline_fn as _inline
+                b = _Body(_inline(f, fn_, lambda c: "write::writer::BufferedWriter" in c and "{closure" not in c and c.split("::")[-1] not in ("flush", "write", "new", "drop"), max_depth=3))
+            else:
+                b = cg.body(cand)
             upv = {}
             if cand != fn_:
                 pb = cg.body(fn_)
@@ -197,7 +202,7 @@ def run(ctx, rep):
                 if cand != fn_:
                     good = hv[:-2] == "arg2" and b.all_paths_pass(0, [hb]) and b.all_paths_pass(0, [pb_])
                 else:
-                    nxt = [bb for bb, t, cal, c in b.calls() if cal and cal.endswith("Iterator>::next")]
+                    nxt = [bb for bb, t, cal, c in b.calls() if cal and (cal.endswith("Iterator>::next") or cal.endswith("Iterator::next"))]
                     good = "next(" in hv and len(nxt) == 1 and b.on_cycle(hb) and b.on_cycle(pb_) and b.dominates(nxt[0], hb) \
                         and b.all_paths_pass(hb, [pb_], to=nxt) and b.all_paths_pass(pb_, [hb], to=nxt + b.return_blocks()) is not None
                     # every element: no branch between `next() == Some` and the first push
